@@ -1,3 +1,7 @@
 //! Kani harnesses over kiki's own functions (engine E3).  Out-of-tree: path dependency on /repo/kiki.
 #[cfg(kani)]
 mod oset;
+#[cfg(kani)]
+mod dollar;
+#[cfg(kani)]
+mod span;
